@@ -70,3 +70,13 @@ Definition gen_run_auto (fuel : nat) : gen_auto_result :=
   end.
 
 End GenAuto.
+
+(** The exit status of gocc as far as the syntax part decides it (main.go handleConflicts + the panic in
+    ResolveConflict): [None] = the model could not decide (ill-formed input, out of fuel). *)
+Definition gocc_exit (g : grammar) (nn ntm : nat) (symbols : list sym) (la_order : list nat) (p_acts : list bool)
+                     (terr : nat) (auto : bool) (fuel : nat) : option nat :=
+  match gen_run_auto g nn ntm symbols la_order p_acts terr fuel with
+  | AutoOk _ _ _ n => Some (if auto then 0 else if Nat.eqb n 0 then 0 else 1)
+  | AutoRefused _ _ => Some 2
+  | _ => None
+  end.
